@@ -112,6 +112,7 @@ func c03DeepDoc(depth int, ctx string) string {
 }
 
 func c03Enumerate(tier string, emit func(*eng.Case)) {
+	crossEmit("C03", tier, "xpara", 1, emit)
 	// every nesting depth up to 300 (a walker or clone that gives up at some depth cuts a paragraph)
 	maxDepth := 300
 	for d := 1; d <= maxDepth; d++ {
@@ -205,6 +206,7 @@ func c03Check(c *eng.Case) *eng.Outcome {
 		return o
 	}
 	textSet := ora.Set(a.TextWords)
+	judged := 0
 	for _, p := range ora.Elements(a.Doc, "p") {
 		if !simpleParagraph(p) {
 			continue
@@ -221,6 +223,20 @@ func c03Check(c *eng.Case) *eng.Outcome {
 		}
 		if len(ws) < 2 {
 			continue
+		}
+		if c.Kind == "xpara" {
+			// documents of other checks repeat words (labels, numbers): judge only paragraphs whose
+			// words all occur once in the document
+			dup := false
+			for _, x := range ws {
+				if a.SrcDup[x.w] {
+					dup = true
+				}
+			}
+			if dup {
+				continue
+			}
+			judged++
 		}
 		kept := 0
 		for _, x := range ws {
@@ -247,6 +263,9 @@ func c03Check(c *eng.Case) *eng.Outcome {
 	// non-trivial: probe has >= 2 text leaves separated by an element
 	d := c.Get("doc")
 	o.Nontrivial = strings.Count(d, " ") >= 6 && (strings.Contains(d, "Ts ") || strings.Contains(d, "Tl ")) && strings.ContainsAny(d, "bsfca")
+	if c.Kind == "xpara" {
+		o.Nontrivial = judged >= 1 && len(a.TextWords) >= 20 && len(a.TextWords) < len(a.SrcWords)
+	}
 	probeKept := "?"
 	o.Class = probeKept
 	if ps := ora.Elements(a.Doc, "p"); len(ps) > 0 {
@@ -260,10 +279,11 @@ func init() {
 		ID:        "C03",
 		DesignRef: "§5 C03",
 		Rule: "one probe paragraph whose children are every sequence of length <= 4 over 16 inline symbols (quick; full-length sequences in 3 of the 18 context/surrounding pairs, shorter ones in all 18) / <= 5 over 21 symbols in all 18 pairs (thorough): text short/long, br, b, span, font, code, a[abs], a[javascript:] with one text child, a[javascript:] with element child, nested b>i, a[javascript:] with text + element child, a[javascript:] with text + br + text, a[href=#], b and a ending in a br (+ i, em, strong, u, a[rel]); " +
-			"contexts {body, div, li, blockquote, layout-table cell, data-table cell} x surroundings {among kept paragraphs, among dropped link clusters, between}; plus a fixed mixed paragraph at every nesting depth 1..300. Oracle: for every <p> of the parsed input built only from text, br and plain inline/link elements, its visible words are all in Text or none is. " +
+			"contexts {body, div, li, blockquote, layout-table cell, data-table cell} x surroundings {among kept paragraphs, among dropped link clusters, between}; plus a fixed mixed paragraph at every nesting depth 1..300." + crossRule + " (there, paragraphs whose words all occur once) Oracle: for every <p> of the parsed input built only from text, br and plain inline/link elements, its visible words are all in Text or none is. " +
 			"Non-trivial = probe with >= 2 children including a text leaf and an element.",
 		Enumerate: c03Enumerate,
 		Check:     c03Check,
+		Prepare:   func(tier string) { CrossCorpus(tier) },
 		Bounds: func(tier string) map[string]any {
 			if tier == "thorough" {
 				return map[string]any{"max_children": 5, "inline_symbols": len(c03Inl), "contexts": 6, "surroundings": 3}
